@@ -1,0 +1,48 @@
+//go:build verif
+
+// Contracts for package jsonrpc (the DA proxy client), read by /verif/bin/gocv. Comment-only.
+package jsonrpc
+
+// C16: size filter of the client. rpc observes the call through api.Internal.SubmitWithOptions
+// (the function value go-jsonrpc fills in); everything behind it is the transport.
+//@ func (api *API) SubmitWithOptions(ctx, inputBlobs, gasPrice, _, options) (ids, err)
+//@   property C16
+//@   nopanic
+//@   requires [wiring] api.Logger != nil && api.MaxBlobSize < 9223372036854775808
+//@   observe rpc := call SubmitWithOptions
+//@   ensures [sent-prefix] rpc ==> len(rpc.arg1) <= len(inputBlobs) && len(rpc.arg1) > 0 && forall k :: 0 <= k && k < len(rpc.arg1) ==> rpc.arg1[k] == inputBlobs[k]
+//@   ensures [fits] rpc ==> sumLen(inputBlobs, len(rpc.arg1)) <= api.MaxBlobSize
+//@   ensures [longest] rpc && len(rpc.arg1) < len(inputBlobs) ==> sumLen(inputBlobs, len(rpc.arg1)) + len(inputBlobs[len(rpc.arg1)]) > api.MaxBlobSize
+//@   ensures [once] rpc.count <= 1
+//@   ensures [count-passthrough] rpc && !msgHas(rpc.res1, context.Canceled) ==> ids == rpc.res0 && err == rpc.res1
+//@   ensures [cancel] rpc && rpc.res1 != nil && msgHas(rpc.res1, context.Canceled) ==> isErr(err, context.Canceled)
+//@   ensures [oversize] !rpc && len(inputBlobs) > 0 ==> isErr(err, da.ErrBlobSizeOverLimit) && len(ids) == 0
+//@   ensures [empty] len(inputBlobs) == 0 ==> !rpc && err == nil && len(ids) == 0
+//@   loop 1 invariant [aligned] oversizeBlobs >= 0 && oversizeBlobs <= rangeindex + 1 && rangeindex >= -1 && rangeindex + 1 <= len(inputBlobs) && (oversizeBlobs == 0 ==> len(blobsToSubmit) == rangeindex + 1)
+//@   loop 1 invariant [prefix] oversizeBlobs == 0 ==> forall k :: 0 <= k && k < len(blobsToSubmit) ==> blobsToSubmit[k] == inputBlobs[k]
+//@   loop 1 invariant [sum] oversizeBlobs == 0 ==> currentSize == sumLen(inputBlobs, rangeindex + 1) && currentSize <= api.MaxBlobSize
+//@   loop 1 after [stopped-at-first-misfit] oversizeBlobs == 0 && len(blobsToSubmit) < len(inputBlobs)
+//@                       ==> sumLen(inputBlobs, len(blobsToSubmit)) + len(inputBlobs[len(blobsToSubmit)]) > api.MaxBlobSize
+//@   loop 1 after [sum-final] oversizeBlobs == 0 ==> currentSize == sumLen(inputBlobs, len(blobsToSubmit))
+//@   loop 1 after [len-final] oversizeBlobs == 0 ==> len(blobsToSubmit) <= len(inputBlobs)
+//@   loop 1 after [prefix-final] oversizeBlobs == 0 ==> forall k :: 0 <= k && k < len(blobsToSubmit) ==> blobsToSubmit[k] == inputBlobs[k]
+
+//@ func (api *API) GetIDs(ctx, height, _) (r, err)
+//@   property C16
+//@   nopanic
+//@   requires [wiring] api.Logger != nil
+//@   observe rpc := call GetIDs
+//@   ensures [not-found-by-message] rpc.res1 != nil && msgHas(rpc.res1, da.ErrBlobNotFound) ==> err == rpc.res1
+//@   ensures [future-by-message] rpc.res1 != nil && !msgHas(rpc.res1, da.ErrBlobNotFound) && msgHas(rpc.res1, da.ErrHeightFromFuture) ==> err == rpc.res1
+//@   ensures [empty-is-not-found] rpc.res1 == nil && (rpc.res0 == nil || len(rpc.res0.IDs) == 0) ==> isErr(err, da.ErrBlobNotFound) && r == nil
+//@   ensures [success] rpc.res1 == nil && rpc.res0 != nil && len(rpc.res0.IDs) > 0 ==> err == nil && r == rpc.res0
+//@   ensures [error-passthrough] rpc.res1 != nil ==> err != nil
+
+//@ func (api *API) Get(ctx, ids, _) (r, err)
+//@   property C16
+//@   nopanic
+//@   requires [wiring] api.Logger != nil
+//@   observe rpc := call Get
+//@   ensures [success] rpc.res1 == nil ==> err == nil && r == rpc.res0
+//@   ensures [error] rpc.res1 != nil ==> err != nil
+//@   ensures [same-ids] rpc.count == 1 && rpc.arg1 == ids
